@@ -2800,6 +2800,13 @@ class Mesh:
             print("redistributing", region.name, flush=True)
             region.distributePointsNonorthogonal(nonorthogonal_settings)
 
+        # R and Z arrays that were already calculated are now out of date. Remove them so
+        # that geometry() re-calculates them from the redistributed points.
+        for region in self.regions.values():
+            for name in ("Rxy", "Zxy"):
+                if hasattr(region, name):
+                    delattr(region, name)
+
     def calculateRZ(self):
         """
         Create arrays with R and Z values of all points in the grid
